@@ -30,6 +30,10 @@ pub enum Op {
     Upkeep,
     /// (recency only) update keys 0..upto of one kind
     UpdateAll { kind: u8, upto: usize, preserve: bool },
+    /// (recency only) a get-or-create whose closure panics before it touches the metric (caught):
+    /// the metric exists afterwards if it did not before, un-updated; a shard lock the panic may
+    /// have poisoned must not change what later observations do
+    PanicTouch { kind: u8, key: usize },
 }
 
 #[derive(Clone, Debug, Serialize, Deserialize)]
@@ -81,7 +85,13 @@ fn advance_nanos(timeout_ms: Option<u64>, how: u8, small: u32) -> u64 {
 fn gen_ops(r: &mut Rng, nkeys: usize, nkinds: u64, n: u64) -> Vec<Op> {
     (0..n)
         .map(|_| match r.below(10) {
-            0..=3 => Op::Update { kind: r.below(nkinds) as u8, key: r.below(nkeys as u64) as usize, preserve: r.chance(400) },
+            0..=3 => {
+                if r.chance(60) {
+                    Op::PanicTouch { kind: r.below(nkinds) as u8, key: r.below(nkeys as u64) as usize }
+                } else {
+                    Op::Update { kind: r.below(nkinds) as u8, key: r.below(nkeys as u64) as usize, preserve: r.chance(400) }
+                }
+            }
             4..=6 => Op::Advance(r.below(5) as u8, r.range(1, 1000) as u32),
             _ => Op::Observe { kind: r.below(nkinds) as u8 },
         })
@@ -190,6 +200,24 @@ impl Scenario for C12Recency {
                       }
                     }
                     Op::Upkeep => {}
+                    Op::PanicTouch { kind, key: ki } => {
+                        struct TouchPanic;
+                        let k = key(*ki);
+                        let r = std::panic::catch_unwind(std::panic::AssertUnwindSafe(|| match kind {
+                            0 => registry.get_or_create_counter(&k, |_| -> () { std::panic::resume_unwind(Box::new(TouchPanic)) }),
+                            1 => registry.get_or_create_gauge(&k, |_| -> () { std::panic::resume_unwind(Box::new(TouchPanic)) }),
+                            _ => registry.get_or_create_histogram(&k, |_| -> () { std::panic::resume_unwind(Box::new(TouchPanic)) }),
+                        }));
+                        if let Err(p) = r {
+                            if !p.is::<TouchPanic>() {
+                                std::panic::resume_unwind(p);
+                            }
+                        }
+                        let st = model.entry((*kind, *ki)).or_default();
+                        if !st.exists {
+                            *st = MState { exists: true, gen: 0, value: 0, entry: st.entry };
+                        }
+                    }
                     Op::Advance(how, small) => {
                         let d = advance_nanos(p.timeout_ms, *how, *small);
                         mock.increment(d);
@@ -464,7 +492,7 @@ impl Scenario for C12PromIdle {
                         }
                         // maintenance between scrapes: folds histogram samples, is not an observation
                         Op::Upkeep => handle.run_upkeep(),
-                        Op::UpdateAll { .. } => {}
+                        Op::UpdateAll { .. } | Op::PanicTouch { .. } => {}
                         Op::Observe { .. } => {
                             let text = handle.render();
                             let fams = match promtext::parse(&text) {
